@@ -32,6 +32,7 @@ type Step struct {
 type ClientPlan struct {
 	ID      int
 	Addr    string // peer address "ip:port"
+	Random  []byte // 32 octets: the ClientHello's random (nil: drawn by the TLS library)
 	Hello   *HelloPlan
 	Raw     bool // no TLS: "connect" just opens the TCP connection; "tcpwrite" sends bytes
 	Seg     SegPlan
@@ -258,6 +259,9 @@ func (c *Client) exec(s *Step) error {
 			c.HandshakeErr = "preset: " + err.Error()
 			return err
 		}
+		if len(c.Plan.Random) == 32 {
+			u.SetClientRandom(c.Plan.Random) // (ApplyPreset draws a fresh one)
+		}
 		c.tls = u
 		if err := u.Handshake(); err != nil {
 			c.HandshakeErr = err.Error()
@@ -299,6 +303,9 @@ func (c *Client) exec(s *Step) error {
 		if err := u.ApplyPreset(c.Plan.Hello.Spec()); err != nil {
 			c.HandshakeErr = "preset: " + err.Error()
 			return err
+		}
+		if len(c.Plan.Random) == 32 {
+			u.SetClientRandom(c.Plan.Random) // (ApplyPreset draws a fresh one)
 		}
 		c.tls = u
 		c.ConnectedAt = c.W.Now()
